@@ -932,12 +932,50 @@ func valEq(eff *effTable, a, b ssa.Value, fields ...*types.Var) bool {
 			continue
 		}
 		// same field stored: aliasing? a store through a distinct fresh allocation cannot alias
-		if distinctFresh(fa.X, lbase) {
+		if distinctFresh(fa.X, lbase) || knownDistinct(fa.X, lbase, st) {
 			continue
 		}
 		return false
 	}
 	return true
+}
+
+// knownDistinct: a branch fact that dominates the store says the two objects differ (`if r.prev == r { return }`
+// in front of `r.prev.next = …`), and the field the store's base was read from has not been written in the
+// store's block before it (so the base is still the value the fact spoke about).
+func knownDistinct(storeBase, loadBase ssa.Value, st *ssa.Store) bool {
+	_, bf := loadedField(storeBase)
+	if bf == nil {
+		return false
+	}
+	for _, in := range st.Block().Instrs {
+		if in == ssa.Instruction(st) {
+			break
+		}
+		if s2, ok := in.(*ssa.Store); ok {
+			if fa, ok := s2.Addr.(*ssa.FieldAddr); ok {
+				if _, f := fieldVarOf(fa); sameField(f, bf) {
+					return false
+				}
+			}
+		}
+		if _, isCall := in.(ssa.CallInstruction); isCall {
+			if _, isB := in.(*ssa.Call); !isB || in.(*ssa.Call).Call.StaticCallee() != nil || in.(*ssa.Call).Call.IsInvoke() {
+				return false
+			}
+		}
+	}
+	a, b := sym(storeBase), sym(loadBase)
+	for _, cm := range cmpsAt(st.Block()) {
+		if cm.Op != token.NEQ {
+			continue
+		}
+		x, y := sym(cm.X), sym(cm.Y)
+		if (x == a && y == b) || (x == b && y == a) {
+			return true
+		}
+	}
+	return false
 }
 
 // distinctFresh: storeBase is a fresh allocation (alloc or call to a function
